@@ -26,6 +26,11 @@ VARIANTS = [
     ("function", dict(type_annotations=True, emit_as_kwonlyargs=True)),
     ("function", dict(type_annotations=False, emit_as_kwonlyargs=False)),
     ("argparse", {}),
+    # the same emitters writing 'Defaults to ...' into the docstring (the docstring is rendered from the same parameter entries the code is built from)
+    ("class", dict(edd=True)),
+    ("pydantic", dict(edd=True)),
+    ("function", dict(type_annotations=True, emit_as_kwonlyargs=False, edd=True)),
+    ("argparse", dict(edd=True)),
 ]
 CONFIGS = [dict(fmt=f, kw=kw, style=s) for f, kw in VARIANTS for s in F.STYLES]
 
@@ -239,6 +244,8 @@ def run_config(ir, cfg):
         ctx["int_under_float"] = True
     if cfg["fmt"] == "function":
         ctx.update(type_annotations=cfg["kw"]["type_annotations"], kwonly=cfg["kw"]["emit_as_kwonlyargs"])
+    if cfg["kw"].get("edd"):
+        ctx["emit_default_doc"] = True
     ret = ir["returns"]["return_type"] if ir["returns"] else None
     ctx["ret"] = "none" if not ret else ("default" if "default" in ret else "plain")
 
@@ -249,7 +256,7 @@ def run_config(ir, cfg):
         viol.append(dict(sig=sig, expected=expected, observed=observed))
 
     try:
-        node = F.emit_ast(cfg["fmt"], ir, cfg["style"], False, **cfg["kw"])
+        node = F.emit_ast(cfg["fmt"], ir, cfg["style"], bool(cfg["kw"].get("edd")), **{k: x for k, x in cfg["kw"].items() if k != "edd"})
     except Exception as e:
         v("emit_raises", "an AST", "%s: %s" % (type(e).__name__, e), exc=type(e).__name__)
         return viol, "emit-raises", None
